@@ -199,7 +199,10 @@ example : exSegsA.flatten ~ exSegsB.flatten := by decide
 example : statsOf exSegsA = { numDocs := 6, numTokens := 11 } := by decide
 example : statsOf exSegsB = { numDocs := 6, numTokens := 11 } := by decide
 example : docFreqOf exSegsB 2 = 3 := by decide
-example : fieldnormToId 41 = 40 ∧ idToFieldnorm 40 = 40 ∧ idToFieldnorm 41 = 42 := by decide +kernel
+/-- a length strictly inside a quantisation bucket is rounded down to the bucket's lower end
+(stated without pinning table values: the lengths between two consecutive entries) -/
+example : fieldnormToId (idToFieldnorm 100 + 1) = 100 ∧ idToFieldnorm 100 + 1 < idToFieldnorm 101 := by
+  decide +kernel
 example : BoostFree (QTree.sum [QTree.term 3 2 1, QTree.const (QTree.term 1 1 1) (0 : Nat)] : QTree Nat) :=
   .sum _
 
